@@ -477,11 +477,7 @@ func (m c19) run(c *Ctx, d *c19dict, ops []c19op, r *RNG) {
 		case "AddAttr":
 			a := d.attrs[o.Name]
 			exists := cur.Attr(a.Name) != nil
-			if err == nil {
-				if exists {
-					c.Violate("addattr-duplicate-accepted", "AddAttr(%q) succeeded although the collection already has it; %s", a.Name, hist(step))
-					return
-				}
+			if err == nil && !exists { // a repeated AddAttr of the same definition may be refused or accepted: nothing observable changes
 				cur.Attrs = append(append([]AttrSpec{}, cur.Attrs...), a)
 				if len(elems) > 0 {
 					lateField++
@@ -490,11 +486,7 @@ func (m c19) run(c *Ctx, d *c19dict, ops []c19op, r *RNG) {
 		case "AddRel":
 			rl := d.rels[o.Name]
 			exists := cur.Rel(rl.Name) != nil
-			if err == nil {
-				if exists {
-					c.Violate("addrel-duplicate-accepted", "AddRel(%q) succeeded although the collection already has it; %s", rl.Name, hist(step))
-					return
-				}
+			if err == nil && !exists {
 				cur.Rels = append(append([]RelSpec{}, cur.Rels...), rl)
 				if len(elems) > 0 {
 					lateField++
